@@ -26,12 +26,19 @@ KF = 'model:MC_Alu_W4_strict.cfg:ShiftExact'
 def run(ck):
     ck.mc('AluTheorems', 'MC_Alu_W4.cfg', timeout=3000, coverage=False)
     ck.mc('MulTheorems', ck.pick('MC_Mul_W6.cfg', 'MC_Mul_W8.cfg'), timeout=3000, coverage=False)
+    # full width, symbolically: Multiply / ProductToBus / AlignDown exact for ALL 2^16 x 2^16 factor pairs, all sign and
+    # half-word modes, all 2^33 product register contents (Apalache on MulInd.tla, W = 16)
+    ck.mc('MulIndSame', 'MC_MulIndSame.cfg', timeout=1200, coverage=False)
+    ck.apalache('MulInd', 'MulInd.cfg', 'Exact', timeout=1500)
     r = ck.mc('AluTheorems', 'MC_Alu_W4_strict.cfg', must_hold=False, coverage=False, timeout=3000)
     if r.violated == 'ShiftExact':
         if not ck.known_finding_seen(KF):
             ck.violation(KF, 'spec/MC_Alu_W4_strict.cfg', 'shift by exactly 40: carry is not the last bit shifted out')
     isa_common.family_check(ck, FAMILY, ck.pick(4, 8), 'c04', rounds=ck.pick(1, 4))
-    ck.assumptions += isa_common.ISA_ASSUMPTIONS
+    ck.assumptions += isa_common.ISA_ASSUMPTIONS + [
+        'the multiplier, product shift and alignment are proved exact at full width (W = 16) by Apalache/SMT on MulInd.tla, whose '
+        'operators TLC shows equal to TeakAlu.tla for all values at W = 6; the barrel shifter and the exponent are exhaustive at '
+        'W = 4 and observed at width 16; Apalache and Z3 are trusted']
 
 
 def replay(ck, path):
